@@ -60,6 +60,11 @@ def generic_programs(ctx):
 
 
 def get(ctx, fam):
+    if fam == "alias":
+        byb = alias_programs(ctx)
+        return build_family(ctx, fam, byb, sv_by_bin={b: ALIAS for b in byb})
+    if fam == "names":
+        return build_family(ctx, fam, name_programs(ctx))
     if fam == "generic":
         return build_family(ctx, fam, generic_programs(ctx))
     if fam == "attrs":
@@ -115,3 +120,81 @@ def place_effect_attrs(rng, p):
                     eff["default"].append((h["hid"], a["name"]))
     p["attr_effects"] = eff
     return p
+
+
+# ---------------------------------------------------------------- C19: crate alias and parameter names
+
+ALIAS = "svx"
+CANDIDATE_NAMES = [chr(c) for c in range(ord("A"), ord("Z") + 1)] + ["Msg", "Query", "Param", "Data", "Exec", "Custom", "Item"]
+
+
+def alias_programs(ctx):
+    """A slice of every family, rendered against a renamed dependency (`svx = { package = "sylvia" }`)."""
+    n = ctx.pick(1, 8)
+    out = {}
+    progs = []
+    for i in range(n):
+        rng = ctx.rng("alias", i)
+        a = spec.gen_program(rng, f"al_g{i:02d}", n_ifaces=2, customs={"msg": i % 2 == 0, "query": i % 3 == 0})
+        b = spec.gen_program(rng, f"al_r{i:02d}", n_ifaces=rng.choice([0, 1]))
+        # make sure both kinds of partial coverage occur (pass-through arms are generated)
+        for _ in range(50):
+            b = spec.gen_program(rng, f"al_r{i:02d}", n_ifaces=rng.choice([0, 1]))
+            tb = spec.gen_reply_table(rng, b, n_names=4)
+            covers = {v["cover"] for v in tb["names"].values()}
+            if {"s", "e"} <= covers:
+                break
+        c = spec.gen_generic_program(rng, f"al_x{i:02d}")
+        d = spec.gen_ep_config_program(rng, f"al_e{i:02d}", rng.sample(spec.ALL_EP_KINDS, 2), True, "legacy", True)
+        e = spec.gen_program(rng, f"al_a{i:02d}", n_ifaces=1)
+        place_effect_attrs(rng, e)
+        f = spec.gen_program(rng, f"al_q{i:02d}", n_ifaces=1, customs={"msg": True, "query": True})
+        spec.gen_reply_table(rng, f, n_names=2)
+        progs += [a, b, c, d, e, f]
+    for k, p in enumerate(progs):
+        p["_render_kw"] = {"sv": ALIAS}
+        out.setdefault(f"al{k % ctx.pick(3, 16):02d}", []).append(p)
+    return out
+
+
+def name_program(name, idx):
+    """A generic contract whose type parameter, and an interface whose associated type, is called `name`."""
+    import random
+    rng = random.Random(idx)
+    from . import types as T
+    p = {"name": f"nm_{name.lower()}_{idx:02d}", "custom": {"msg": idx % 2 == 0, "query": idx % 3 == 0}, "error": "MonErr", "types": [], "parts": [],
+         "replies": False, "overrides": [], "generics": [{"name": name, "concrete": "u32"}]}
+    g = T.generic_param(name, T.U32)
+    at = T.assoc_type(name, T.STRING)
+    ti = lambda t: spec.intern_type(p, t)
+    c = {"id": "c", "module": None, "trait": None, "variant": "Contract", "handlers": []}
+    p["parts"].append(c)
+
+    def h(part, kind, nm, args, resp=None):
+        d = {"kind": kind, "name": nm, "safe": True, "args": [{"name": an, "ti": ti(t)} for an, t in args], "ret_err": "own",
+             "hid": f"{part['id']}.{kind}.{nm}", "part": part["id"]}
+        if resp is not None:
+            d["resp_ti"] = ti(resp)
+        part["handlers"].append(d)
+    h(c, "instantiate", "instantiate", [("first", T.option(g)), ("count", T.U64)])
+    h(c, "exec", "store", [("value", g), ("items", T.vec(g))])
+    h(c, "exec", "touch", [("flag", T.BOOL)])
+    h(c, "query", "load", [("key", T.STRING)], resp=g)
+    h(c, "sudo", "force", [("value", g)])
+    h(c, "migrate", "migrate", [("value", T.tup(g, T.U32))])
+    i0 = {"id": "i0", "module": "named_iface", "trait": "NamedIface", "variant": "NamedIface", "handlers": [], "custom_mode": ["assoc", "empty", "fixed"][idx % 3],
+          "error": "MonErr", "assoc": [(name, "String")], "assoc_concrete": [(name, "String")]}
+    p["parts"].append(i0)
+    h(i0, "exec", "put", [("item", at), ("n", T.U32)])
+    h(i0, "query", "get", [("item", T.option(at))], resp=at)
+    h(i0, "sudo", "reset", [("items", T.vec(at))])
+    spec.gen_reply_table(rng, p, n_names=2)
+    return p
+
+
+def name_programs(ctx):
+    out = {}
+    names = CANDIDATE_NAMES
+    for k, nm in enumerate(names):
+        out.setdefault(f"nm{k % 8:02d}", []).append(name_program(nm, k))
+    return out
